@@ -9,11 +9,16 @@ The rank clause is proved for all sizes at the operator level (`rank_family`): a
 of `n − k = 3·Lx·Ly·Lz − 3` distinct generators (all vertices but the origin; the xz / yz faces
 below the top layer plus a spanning tree of top-layer vertical faces; the xy faces of the layer
 `z = 0` but one) is GF(2)-independent (no non-empty sub-family has even X- and Z-parity on every
-location).  With `C01.rank_upper_bound` (commutation + pairing force rank ≤ n − k, every code) the
-rank is exactly `n − k`; the translation of `OpsIndep` into `Indep` on BSF rows is the operator/BSF
-bridge (`Proofs/OpComm.lean`), not repeated here.
+location).  `valid_code` puts everything together through the generic bridges
+`Proofs/OpComm.lean` (`symp (to_bsf a) (to_bsf b) = opAntiCount a b mod 2` ⇒ `CommPairL` of the
+assembled rows) and `Proofs/Lat3DRankBridge.lean` / `Proofs/Lat2DRankBridge.lean` (parity-form
+independent family of `n − k` distinct generators ⇒ `HasRank (2n) rowsH (n − k)`): the matrices
+that `stabilizer_matrix`, `logicals_x`, `logicals_z` of the generic code model (`Model/Code.lean`,
+C02) assemble from this lattice model form a valid `[[n, k]]` stabilizer code (`ValidCodeL`: all
+four clauses of C01, rank included) for EVERY size of the family.
 -/
 import PanqecVerif.Proofs.LatToric3DCodeRank
+import PanqecVerif.Proofs.Lat3DRankBridge
 
 namespace Panqec.C01Toric3DCode
 open Panqec.Cubic3D Panqec.Toric3DCode
@@ -93,6 +98,23 @@ theorem rank_family (Lx Ly Lz : Nat) (hLx : 2 ≤ Lx) (hLy : 2 ≤ Ly) (hLz : 2 
     exact rankFamily_length hLx hLy hLz
   · rw [lattice_getStab]; exact rankFamily_indep hLx hLy hLz
 
+/-- THE C01 STATEMENT FOR ALL SIZES (`Lx, Ly, Lz ≥ 2`): `stabilizer_matrix`, `logicals_x`,
+    `logicals_z` of the generic code model, applied to this lattice model, return (no `KeyError`)
+    matrices that form a valid `[[n, k]] = [[3·Lx·Ly·Lz, 3]]` stabilizer code: generators pairwise
+    commute, logicals commute with the generators, `ω(X_i, Z_j) = δ_ij`,
+    `ω(X_i, X_j) = ω(Z_i, Z_j) = 0`, and the generators have GF(2) rank `n − k` -/
+theorem valid_code (Lx Ly Lz : Nat) (hLx : 2 ≤ Lx) (hLy : 2 ≤ Ly) (hLz : 2 ≤ Lz) :
+    stabilizerMatrix (lattice Lx Ly Lz).toCodeData = some (lattice Lx Ly Lz).rowsH ∧
+    logicalsX (lattice Lx Ly Lz).toCodeData = some (lattice Lx Ly Lz).rowsX ∧
+    logicalsZ (lattice Lx Ly Lz).toCodeData = some (lattice Lx Ly Lz).rowsZ ∧
+    ValidCodeL (3 * (Lx * Ly * Lz)) 3
+      (lattice Lx Ly Lz).rowsH (lattice Lx Ly Lz).rowsX (lattice Lx Ly Lz).rowsZ := by
+  obtain ⟨B, hnd, hsub, hlen, hind⟩ := rank_family Lx Ly Lz hLx hLy hLz
+  have h := validCode_of_opsIndep (lattice Lx Ly Lz) (wf Lx Ly Lz hLx hLy hLz)
+    (commPair Lx Ly Lz hLx hLy hLz) B hnd hsub hlen hind
+  rw [n_formula, k_value] at h
+  exact h
+
 /-- CSS structure for every supported size: a stabilizer location is a `'vertex'` whose operator carries only Z
     (on exactly 6 qubits) or a `'face'` whose operator carries only X (on exactly 4 qubits). -/
 theorem stabilizer_shape (Lx Ly Lz : Nat) (hLx : 2 ≤ Lx) (hLy : 2 ≤ Ly) (hLz : 2 ≤ Lz) {s : Coord}
@@ -153,6 +175,10 @@ example : (lattice 2 3 4).WF := wf 2 3 4 (by decide) (by decide) (by decide)
 example : (lattice 2 3 4).CommPair := commPair 2 3 4 (by decide) (by decide) (by decide)
 example : (lattice 2 3 4).toCodeData.n = 72 := n_formula 2 3 4
 example : (rankFamily 2 3 4).length = 69 := by decide +kernel
+example : ValidCodeL 72 3 (lattice 2 3 4).rowsH (lattice 2 3 4).rowsX (lattice 2 3 4).rowsZ :=
+  (valid_code 2 3 4 (by decide) (by decide) (by decide)).2.2.2
+example : HasRank (2 * 24) (lattice 2 2 2).rowsH 21 :=
+  (valid_code 2 2 2 (by decide) (by decide) (by decide)).2.2.2.rank
 example : getStab 2 2 2 [0, 0, 0] =
     [([3, 0, 0], .Z), ([1, 0, 0], .Z), ([0, 3, 0], .Z), ([0, 1, 0], .Z), ([0, 0, 3], .Z),
      ([0, 0, 1], .Z)] := by decide +kernel
